@@ -249,6 +249,9 @@ def make_rank_main(trace: dict, outs: list[worldrun.RankOut], collect_info: bool
                 ]
             elif ev["op"] == "set_hparam":
                 prog.opt.param_groups[ev["group"]][ev["key"]] = ev["value"]
+            elif ev["op"] == "poke":
+                with torch.no_grad():
+                    spec._local(prog.params[ev["param"]]).mul_(ev["scale"])
             ctx.progress = ei + 1
             sim.record("event_done", ei)
             sim.yield_()
